@@ -67,6 +67,31 @@ def run(chk, tier, seed):
     vf.write_cfg(cfg, constants=dict(Threads={1, 2, 3}, MaxSpin=2, MaxDepth=2, Recursive=True), invariants=["MutualExclusion", "DepthMatches"])
     r = vf.tlc("Mutex", cfg, workers=4, timeout=600)
     chk.add_mc("Mutex", r); vf.tlc_cleanup(r)
+    # ... and its binding to the code: a two-thread scenario that forces the spin / force-unlock path, every trylock attempt,
+    # acquisition, forced and regular release validated as a step of Mutex.tla (MutexTrace.tla)
+    spin = 5000
+    try:
+        m = re.search(r"#define\s+MAX_MUTEX_LOCK_WAIT\s+\((\d+)\)", open(os.path.join(vf.REPO, "src/internal/qinternal.h")).read())
+        if m: spin = int(m.group(1))
+    except OSError:
+        pass
+    mtrace = os.path.join(wd, "mutex.ndjson")
+    p = subprocess.run([exe, "mutex", "6" if tier == "quick" else "30", mtrace], capture_output=True, text=True, timeout=600)
+    if p.returncode != 0 or not os.path.exists(mtrace):
+        chk.violation("mutex:crash", "the lock-protocol scenario died (rc=%s): %s" % (p.returncode, p.stderr[-1500:]), dict(kind="mutex"))
+    else:
+        cfg = os.path.join(wd, "mutextrace.cfg")
+        vf.write_cfg(cfg, constants=dict(Threads={1, 2}, MaxSpin=spin, MaxDepth=2, Recursive=True), init="TInit", next_="TNext",
+                     invariants=["MutualExclusion", "DepthMatches"], postcondition="Consumed")
+        res = vf.validate("MutexTrace", cfg, mtrace, timeout=900)
+        if res["infra"]:
+            chk.infra.append("MutexTrace: " + res["infra"])
+        for (l, txt) in res["rejects"][:3]:
+            chk.violation("mutex:protocol", "lock event %d is not a step of Mutex.tla:\n%s" % (l, txt[:2000]), dict(kind="mutex", line=l))
+        if not res["rejects"] and not res["accepted"] and not res["infra"]:
+            chk.violation("mutex:invariant", "Mutex.tla invariant violated along the recorded lock trace", dict(kind="mutex"))
+        chk.cov["traces_validated_against_impl"] += 1
+        chk.add_cases(vf.count_lines(mtrace), distinct_n=1)
 
     # 1. all interleavings of the client programs at block granularity: design-level linearizability + schedule export
     jobs = []
